@@ -56,17 +56,77 @@ def write_map(fmt, addrs, fname):
         return
     harness.write_file(fname, data)
 
+def structured_program(rng, org):
+    """Code with call structure for real traces: a main routine that calls hot routines, makes conditional calls/jumps
+    that are NOT taken to cold (unexecuted but referenced) regions, some of which fall through into the next hot
+    routine; hot routines sit back to back (RET followed directly by the next executed routine)."""
+    filler = [0x3C, 0x3D, 0x04, 0x05, 0x23, 0x2B, 0x00, 0xA7, 0x87, 0x47, 0x4F]
+    nhot = rng.randint(2, 5)
+    hot = [[rng.choice(filler) for _ in range(rng.randint(1, 6))] + [0xC9] for _ in range(nhot)]
+    cold = []
+    for k in range(nhot):
+        if rng.random() < 0.7:
+            body = [rng.choice(filler) for _ in range(rng.randint(1, 5))]
+            if rng.random() < 0.4:
+                body += [0xC9]
+            cold.append(body)          # without RET it falls through into hot[k]
+        else:
+            cold.append(None)
+    # main: per routine [XOR A (Z set); CALL NZ/JP NZ cold_k (not taken)]; CALL hot_k, directly or through a JP (HL)
+    # trampoline (an executed routine that no instruction in the range refers to); RET; trampoline
+    indirect = [rng.random() < 0.4 for _ in range(nhot)]
+    main_len = sum((4 if cold[k] is not None else 0) + (6 if indirect[k] else 3) for k in range(nhot)) + 2
+    tramp = org + main_len - 1
+    addr = org + main_len
+    cold_at, hot_at = [], []
+    for k in range(nhot):
+        if cold[k] is not None:
+            cold_at.append(addr)
+            addr += len(cold[k])
+        else:
+            cold_at.append(None)
+        hot_at.append(addr)
+        addr += len(hot[k])
+    out = []
+    for k in range(nhot):
+        if cold[k] is not None:
+            out += [0xAF, rng.choice([0xC4, 0xC2]), cold_at[k] & 0xFF, cold_at[k] >> 8]     # XOR A: Z set, so the NZ call/jump is not taken
+        if indirect[k]:
+            out += [0x21, hot_at[k] & 0xFF, hot_at[k] >> 8, 0xCD, tramp & 0xFF, tramp >> 8]
+        else:
+            out += [0xCD, hot_at[k] & 0xFF, hot_at[k] >> 8]
+    out += [0xC9, 0xE9]
+    main_len = len(out)
+    for k in range(nhot):
+        if cold[k] is not None:
+            out += cold[k]
+        out += hot[k]
+    tail = [rng.randrange(256) for _ in range(rng.randint(0, 12))]
+    return out + tail, main_len
+
+
 def make_case(rng):
     size = rng.choice([16, 30, 64, 100, 256, 700, 2048])
     top = rng.random() < 0.2
     org = 65536 - size if top else rng.choice([16384, 23296, 32768, 49152, rng.randrange(16384, 65536 - size)])
     data = memgen.gen_bytes(rng, size, org=org)
-    if rng.random() < 0.25:
+    structured = rng.random() < 0.2
+    if structured:
+        prog, main_len = structured_program(rng, org)
+        if len(prog) <= 65536 - org:
+            data = prog
+            size = len(prog)
+        else:
+            structured = False
+    if not structured and rng.random() < 0.25:
         # end mid-instruction
         tail = rng.choice([[0x18], [0xC3], [0xCD, 0x00], [0x21], [0xDD], [0xED], [0xDD, 0xCB, 0x01], [0x10], [0xC9], [0xFD, 0x21, 0x00]])
         data[-len(tail):] = tail[:len(data)]
     start, end = org, org + size
-    if rng.random() < 0.25 and size > 8:
+    entry = None
+    if structured and rng.random() < 0.3:
+        entry, start = org, org + main_len        # the driver lies before the disassembled range
+    if not structured and rng.random() < 0.25 and size > 8:
         start = org + rng.randrange(0, size // 2)
         end = rng.randrange(start + 1, org + size + 1)
     opts = []
@@ -86,8 +146,8 @@ def make_case(rng):
         opts += ['-I', 'TextMinLengthData=%d' % rng.choice([1, 3, 10])]
     if rng.random() < 0.15:
         opts += ['-I', 'TextChars=%s' % rng.choice(['abcdefghijklmnopqrstuvwxyz', 'ABC ', '0123456789'])]
-    mapkind = rng.choice(['none', 'none', 'trace', 'trace', 'arbitrary'])
-    return {'image': bytes(data), 'org': org, 'start': start, 'end': end, 'opts': opts, 'rst': rst, 'mapkind': mapkind,
+    mapkind = 'trace' if structured and rng.random() < 0.8 else rng.choice(['none', 'none', 'trace', 'trace', 'arbitrary'])
+    return {'image': bytes(data), 'org': org, 'start': start, 'end': end, 'entry': entry, 'opts': opts, 'rst': rst, 'mapkind': mapkind,
             'mapfmt': rng.choice(MAP_FORMATS), 'dict': rng.random() < 0.1}
 
 class DecodeCounter:
@@ -144,7 +204,7 @@ def check_case(shard, c, rp):
     addrs = None
     if c['mapkind'] == 'trace':
         # real execution trace of the image
-        r = harness.run_tool('trace', ['-o', str(c['org']), '-s', str(start), '-m', '300', '-n', '--map', 'trace.map', 'in.bin'])
+        r = harness.run_tool('trace', ['-o', str(c['org']), '-s', str(c.get('entry') or start), '-m', '300', '-n', '--map', 'trace.map', 'in.bin'])
         if r.ok and os.path.isfile('trace.map'):
             addrs = [int(l[1:5], 16) for l in harness.read_file('trace.map', False).splitlines() if l.startswith('$')]
             shard.inc('observed:real_trace_maps')
@@ -347,7 +407,7 @@ def run(shard, spec):
     for case in range(spec['shard'], n, spec['of']):
         rng = shard.rng('case', case)
         c = make_case(rng)
-        rp = {'image': harness.b64(c['image']), 'org': c['org'], 'start': c['start'], 'end': c['end'], 'opts': c['opts'], 'mapkind': c['mapkind'], 'mapfmt': c['mapfmt'], 'dict': c['dict'], 'rst': c['rst']}
+        rp = {'image': harness.b64(c['image']), 'org': c['org'], 'start': c['start'], 'end': c['end'], 'opts': c['opts'], 'mapkind': c['mapkind'], 'mapfmt': c['mapfmt'], 'dict': c['dict'], 'rst': c['rst'], 'entry': c.get('entry')}
         res = check_case(shard, c, rp)
         shard.case((harness.h64(c['image']), c['org'], c['start'], c['end'], c['opts'], c['mapkind'], c['mapfmt']), bool(res) and (res >= 3 or c['mapkind'] != 'none'),
                    sample={'org': c['org'], 'range': [c['start'], c['end']], 'opts': c['opts'], 'map': c['mapkind'] + '/' + c['mapfmt'], 'blocks': res} if case < 3 else None)
